@@ -14,7 +14,8 @@ VARIABLES l, run, cfg, viol, hits, nruns, learned, lastDisc, acc, wpos, rxq
 vars == <<l, run, cfg, viol, hits, nruns, learned, lastDisc, acc, wpos, rxq>>
 Rules == {"N1", "N2", "N3", "N4", "D1", "D2", "D3", "D4", "D5", "D6", "E2", "E3", "K2", "Q2", "PANIC"}
 SOCKS == {0, 1, 2, 3, 4}  \* two UDP sockets, an ICMP socket bound to an identifier, a raw socket, a raw socket of the other family
-Add(v, x) == IF Len(v) >= 24 THEN v ELSE Append(v, x)
+\* the cap is per rule (x[2]): a flood of one rule (say Q2, which another check owns) must not crowd out the others
+Add(v, x) == IF Len(SelectSeq(v, LAMBDA e : e[2] = x[2])) >= 6 THEN v ELSE Append(v, x)
 RECURSIVE AddAll(_, _)
 AddAll(v, xs) == IF xs = <<>> THEN v ELSE AddAll(Add(v, Head(xs)), Tail(xs))
 Flush == viol = <<>> \/ PrintT(<<"RUNVIOL", ToJson([run |-> run, viol |-> viol])>>)
